@@ -323,3 +323,22 @@ Proof. intros fuel d env st e st' r Hh H. exact (q_expr _ (qf_all fuel) _ _ _ _ 
 Theorem gate_refuses_effects :
   forall f args x a o i v, hse (ECall f args) = true /\ hse (EAssign x a) = true /\ hse (EIdxSet o i v) = true.
 Proof. intros. repeat split. Qed.
+
+(* ------------------------------------------------------------------ session units *)
+Lemma un_stmt_let used x m e : un_stmt used (SLet x m e) = SLet x m e.
+Proof. reflexivity. Qed.
+
+(* every top-level `let` of a session unit survives, in place: same number of statements, and
+   the k-th statement of the output is the k-th statement of the input rewritten inside *)
+Theorem session_unit_keeps_toplevel (p : program) :
+  length (unused_session_unit p) = length p /\
+  (forall k x m e, nth_error p k = Some (SLet x m e) -> nth_error (unused_session_unit p) k = Some (SLet x m e)).
+Proof.
+  unfold unused_session_unit. split; [apply map_length|].
+  intros k x m e H. rewrite nth_error_map, H. reflexivity.
+Qed.
+
+Theorem session_unit_spec (p : program) : Forall2 (Elim (uses_block p)) p (unused_session_unit p).
+Proof.
+  unfold unused_session_unit. apply Forall2_map_l. rewrite Forall_forall. intros a _. apply un_stmt_Elim.
+Qed.
